@@ -3074,13 +3074,13 @@ MODULES = {
         "types": ["CharSet", "CharPartition", "LoopRange", "RE", "BaseRegLan"],
         "mutual": [["RE", "BaseRegLan"]],
         "consts": ["MAX_CHAR"],
-        "functions": [("CharSet", None, f) for f in ("is_singleton", "is_alphabet", "covers")]
-                     + [("LoopRange", None, f) for f in ("start", "is_point", "is_all")]
+        "functions": [("CharSet", None, f) for f in ("is_alphabet", "covers")]
+                     + [("LoopRange", None, f) for f in ("start", "is_all")]
                      + [("CharPartition", None, f) for f in ("len", "new", "from_set", "push", "get")]
                      + [(None, None, "merge_partitions")]
-                     + [("BaseRegLan", None, f) for f in ("is_nullable", "is_atomic", "concat_or_atomic", "is_all_chars", "is_full",
-                                                          "is_singleton", "is_simple_pattern", "is_range", "match_char_set",
-                                                          "deriv_class")],
+                     + [("BaseRegLan", None, f) for f in ("is_nullable", "concat_or_atomic", "is_all_chars", "is_full",
+                                                          "is_range", "match_char_set", "deriv_class")],
+        # is_atomic / is_singleton / is_simple_pattern feed only Display and dead code: no model counterpart, not translated
     },
     "PartitionGen": {
         "files": ["character_sets.rs", "smt_strings.rs", "errors.rs"],
